@@ -13,7 +13,7 @@ RULE = ('write/writeln(int): every 16-bit value exhaustively (batches passed as 
         'write/writeln forms), boundary grid + Hypothesis-drawn values at 24/32/64 bit; write(bool) from every bool '
         'source incl. bools cast from run-time ints / bytes of every bit pattern class (negative, zero low byte, sign bit only), stored, negated, passed and returned; write(byte) all 256 values; write(string)/write(byte array) with lengths 0..64 and arbitrary byte '
         'contents in every storage form (const global, hoisted literal, stack literal, mutable local, byte a[n], '
-        'parameter R/RC/RW, argv array, string->const byte[] conversion, argv string), also placed around and above address '
+        'parameter R/RC/RW, argv array, string->const byte[] conversion of variables / literals / const strings, argv string), also placed around and above address '
         '0x8000 of the const and state sections at 16 bit, and next to numerically equal bool / int / string constants used before or after the call; each call site placed between '
         'canaries (int/byte/bool locals, a byte array, an int array) and run at a generous stack and at the minimal '
         'stack size S_min found by binary search. Oracle: Python str(int) / exact bytes / canaries unchanged. '
@@ -184,6 +184,17 @@ def form_source(form, data, ln, pad=None):
     elif form == 'string_local':
         setup = 'string s = "zz"; s = %s;' % src_string(data)
         call = '%s(s);' % w
+    elif form == 'literal_as_bytes':
+        call = '%s(%s is byte[]);' % (w, src_string(data))
+    elif form == 'literal_to_const_param':
+        helpers = 'empty f(const byte[] p) { %s(p); }' % w
+        call = 'f(%s);' % src_string(data)
+    elif form == 'literal_to_const_local':
+        setup = 'const byte[] m = %s;' % src_string(data)
+        call = '%s(m);' % w
+    elif form == 'const_string_as_bytes':
+        glob = 'const string gcs = %s;' % src_string(data)
+        call = '%s(gcs is byte[]);' % w
     elif form == 'string_as_bytes':
         setup = 'string s = %s;' % src_string(data)
         call = '%s(s is byte[]);' % w
@@ -241,7 +252,8 @@ def form_source(form, data, ln, pad=None):
 
 FORMS = ['const_global', 'mut_global', 'hoisted_literal', 'stack_literal', 'const_local', 'mut_local', 'vla',
          'param_RC', 'param_R', 'param_RW', 'param_RW_as_const', 'argv_mut', 'argv_const', 'string_literal',
-         'string_global', 'string_local', 'string_as_bytes', 'string_to_const_bytes_var', 'string_elem',
+         'string_global', 'string_local', 'string_as_bytes', 'string_to_const_bytes_var', 'string_elem', 'literal_as_bytes',
+         'literal_to_const_param', 'literal_to_const_local', 'const_string_as_bytes',
          'string_ret', 'argv_string', 'argv_string_array']
 
 
